@@ -17,6 +17,12 @@ G  every TLC path is compiled into a Lua probe module, installed in the page sto
    ends up holding the very object (identity checked from the Python side).
    Attack corpus (harness/c06_corpus.py): ~55 hostile modules executed for real in child
    processes with before/after snapshots of the scratch file system and the pages table.
+Gate engine (harness/c06_gate.py, spec/SandboxGate.tla): the graph above is extracted once,
+   in one order; whatever decides an edge on every lookup (the attribute filter of the
+   bridge) may have a memory.  Second model: a runtime as the HISTORY of attribute lookups
+   (object x name x get/set x same invocation / later #invoke / later page); TLC enumerates
+   every history up to a bound over the Python objects found in the live sandbox, each is
+   run in a fresh context; random longer histories are replayed by TLC.
 """
 from __future__ import annotations
 
@@ -32,6 +38,7 @@ import common
 import luafix
 import c06_extract
 import c06_corpus
+import c06_gate
 from common import Outcome, Scratch, tlc
 
 PID = "C06"
@@ -340,13 +347,28 @@ def tlc_live(o, d: Path, J, tag=""):
 
 def run(tier: str) -> int:
     o = Outcome(PID, tier)
+    # second engine: the gate on the bridge as a state machine over HISTORIES of lookups (c06_gate.py);
+    # its TLC runs work in the background while the reachability engine runs
+    gate = c06_gate.Gate(o, tier)
+    try:
+        gate.start()
+        return _run(o, tier, gate)
+    finally:
+        gate.close()
+
+
+def _run(o, tier: str, gate) -> int:
     thorough = tier == "thorough"
     o.rule = (
         "V/G: one case per forbidden reference that TLC finds reachable in the live object graph "
         "(distinct by forbidden class + chain of edge labels), compiled to a Lua probe and executed; "
         "plus one case per module of the attack corpus (distinct by name). Non-trivial = the probe/attack "
         "really ran through #invoke. The graph itself (nodes, edges) is the exhaustive part: every object "
-        "reachable from the captured environment and frame is a node."
+        "reachable from the captured environment and frame is a node. "
+        "Gate engine: one case per HISTORY of attribute lookups (object x name x get/set x boundary same/invoke/page, "
+        "every history up to the bound, enumerated by TLC from spec/SandboxGate.tla over the objects found in the live "
+        "sandbox), each run in a fresh context; distinct by the sequence of lookups, non-trivial = more than one lookup "
+        "and not every answer a plain denial; plus seeded random longer histories replayed by TLC."
     )
     o.assumptions = [
         "object-capability view: exploits of the C Lua VM / lupa memory safety are out of scope",
@@ -380,6 +402,9 @@ def run(tier: str) -> int:
     o.extra["benign_smoke"] = {"cases": len(luafix.SMOKE_CASES), "failed": bad[:3]}
     if bad:
         raise RuntimeError(f"sandbox smoke test failed, the environment under test does not run benign modules: {bad[:2]}")
+
+    # ---- gate engine: collect its TLC runs, run every generated history for real (before anything else forks)
+    gate.finish()
 
     with Scratch("c06-") as d:
         # ---- V: extraction from the live sandbox
@@ -456,6 +481,9 @@ def replay(path: str) -> int:
     v = json.loads(Path(path).read_text())
     case = v["case"]
     print("why:", v["why"])
+    if case["kind"] == "gate":
+        print("history of lookups, re-executed in a fresh context:")
+        return c06_gate.replay_case(case)
     with Scratch("c06r-") as d:
         if case["kind"] == "attack":
             a = next(a for a in c06_corpus.A if a["name"] == case["name"])
@@ -510,5 +538,6 @@ def selftest() -> int:
             print("claimed success without a model path: gaps =", reach3["gaps"])
             ok &= reach3["gaps"] == ["fake"]
         luafix.close_ctx(ctx)
+    ok &= c06_gate.selftest()
     print("selftest", "ok" if ok else "FAILED")
     return 0 if ok else 1
